@@ -4,7 +4,7 @@ from __future__ import annotations
 
 import itertools
 
-from wdmc import obsfam, vsched, wd
+from wdmc import fsops, inoapi, obsfam, vsched, wd
 
 LEVEL = "model_checking"
 RULE = ("all programs of <= 2 application threads x <= 2-3 calls from {start, schedule, unschedule, unschedule_all, "
@@ -15,6 +15,8 @@ ASSUMPTIONS = [
     "calls that raise by contract (second start(), join() before start(), unknown watch) simply return their error",
     "thread exit is required after a stop() that began when all other calls had returned, followed by join() "
     "(the harness epilogue issues exactly that)",
+    "parts (b)/(c): the real InotifyObserver on the real kernel and the real PollingObserver on a real tree with a "
+    "virtual clock, incl. a watched root that is deleted before stop()",
 ]
 
 
@@ -78,12 +80,22 @@ def setup(tier):
     desc = vsched.instrument(
         line_modules=[api, wd.mod("watchdog.utils.bricks"), wd.mod("watchdog.utils")],
         instr_functions=[api.BaseObserver.dispatch_events], exclude=obsfam.EXCLUDE)
-    return [H(f"c06 {n}", p) for n, p in programs(tier)], desc
+    desc2 = inoapi.instrument()
+    real = [ApiH(f"c06 {n}", p) for n, p in inoapi.programs(tier)]
+    return [H(f"c06 {n}", p) for n, p in programs(tier)] + real, dict(scripted=desc, real_emitters=desc2)
+
+
+class ApiH(inoapi.ApiHarness):
+    def check(self, res):
+        return inoapi.check_liveness(self, res)
 
 
 def run(ctx):
     hs, ctx.instrumented = setup(ctx.tier)
     q = ctx.tier == "quick"
+    real = [h for h in hs if isinstance(h, ApiH)]
+    hs = [h for h in hs if not isinstance(h, ApiH)]
+    ctx.explore_many([(h, 1 if q else 2) for h in real], cap=400_000 if q else 20_000_000, workers=fsops.fs_workers(ctx))
     ctx.explore_many([(h, 1 if q else 2) for h in hs], cap=3_000_000 if q else 60_000_000)
     if q:
         two = [h for h in hs if h.name.split()[1].startswith(("2t-run-stop", "2t-run-unschedule", "re-run-stop"))]
